@@ -10,6 +10,10 @@ NOTES = {
     "C09-m2": "re-introduces a variant of the end-of-input defect that fix e37a3d0 repaired; patch_rebased.diff is the part that still applies",
     "C06-r3m2": "marks a register valid before the 32-bit range check in CfiStackWalker::set_caller_register; written against 2c7e47f; the strict x86 CFI stage built to answer it exposed a genuine defect on the same path (a failing set_caller_register left a forwarded register valid). Fix 19b16c8 makes walk_with_stack_cfi clear the register whenever set_caller_register fails, so on the current tree the change is behaviourally neutral and no check can (or should) report it",
     "C15-r4m1": "changes the process state (the crash address of a 32-bit access violation is no longer masked), not the rendering: the JSON report of that state is still schema-conformant ('0x' + at least 8 digits), so C15's monitors accept it by design; the zero-extension clause belongs to C14, whose CrashReason.tla stage reports it",
+    "C02-r5m2": "the >= 2 parameter gate of the crash address is C14's clause (CrashReason.tla); C02 is about reading streams back, and the exception stream reads back unchanged",
+    "C04-r5m1": "changes SymbolFile::fill_symbol's PUBLIC fall-back; reported by C11 (SymLookup.tla). The walker models' symbol files have no PUBLIC records, so C04's built stacks do not see it",
+    "C10-r5m2": "only parse_async is changed, which can be driven over HTTP only: C16's streamed-body scenarios (whole-buffer parser as oracle) report it; C10's recorder drives the synchronous loop",
+    "C13-r5m2": "a difference between a fresh download and a later cache hit; C16 compares the URL reported by the download with the one the cache note records and reports it; C13's recorder does not download",
     "C17-m3": "strips NUL from cache-relative paths in http.rs: needs the http feature and a module name such as '.\\0.'; detected by C16's hostile-name scenarios (writes outside cache/)",
 }
 
